@@ -4,6 +4,7 @@
    trivially structural facts needed to make the definitions usable. *)
 From Coq Require Export ZArith List Bool Lia.
 From Coq Require String Ascii.
+Export Coq.Strings.String.StringSyntax Coq.Strings.Ascii.AsciiSyntax.
 Export ListNotations.
 Notation string := String.string.
 Open Scope Z_scope.
@@ -25,6 +26,7 @@ Inductive val :=
 | VN                       (* None / NaN / missing *)
 | VS (s : string)
 | VL (l : list val).
+Arguments VS s%string_scope.
 
 Fixpoint val_eqb (a b : val) {struct a} : bool :=
   match a, b with
